@@ -9,13 +9,8 @@ fn into_f64_internal(self) -> Rounded<f64>
         // C06, value: the RNE rounding of significand * 2^exponent (+-inf at/above 2^1024, +-0 below 2^-1075), and
         // `Exact` exactly when nothing was lost
         rr64_val_ok(ret, self.significand.v() < 0, sc_num(absi(self.significand.v()), self.exponent as int), sc_den(self.exponent as int)),
-        // C06, flag: the Rounding tells the true sign of the error.
-        // KNOWN FINDING (genuine defect, see report): an inexact `encode` result is always reported as `NoOp`, also
-        // when encode rounded AWAY from zero (Repr::<2>::new(3, -1075).to_f64() = Inexact(1e-323, NoOp), truthful:
-        // AddOne).  That region -- exponent in [-1127, 1023] and the RNE rounding goes away from zero -- is excluded
-        // from the flag clause; delete the guard once the code maps encode's sign to AddOne/SubOne.
-        !(-1074 - 53 <= self.exponent < 1024 && rne_away(fmt64(), self.significand.v() < 0, sc_num(absi(self.significand.v()), self.exponent as int), sc_den(self.exponent as int)))
-            ==> rr64_flag_ok(ret, self.significand.v() < 0, sc_num(absi(self.significand.v()), self.exponent as int), sc_den(self.exponent as int)),
+        // C06, flag: the Rounding tells the true sign of the error (NoOp = towards zero, AddOne = above, SubOne = below)
+        rr64_flag_ok(ret, self.significand.v() < 0, sc_num(absi(self.significand.v()), self.exponent as int), sc_den(self.exponent as int)),
 @*/
 {
         /*@ broadcast use round_int_axioms, ax_blen, ax_f64_neg; @*/
@@ -53,15 +48,16 @@ fn into_f64_internal(self) -> Rounded<f64>
         } else {
             match f64::encode(man53, self.exponent as i16) {
                 Exact(v) => Exact(v),
-                // this branch only happens when the result underflows
-                Inexact(v, _) => Inexact(v, Rounding::NoOp),
+                // this branch only happens when the result underflows or overflows:
+                // tell whether encode rounded away from zero or towards zero
+                Inexact(v, e) => Inexact(
+                    v,
+                    match (sign, e) {
+                        (Sign::Positive, Sign::Positive) => Rounding::AddOne,
+                        (Sign::Negative, Sign::Negative) => Rounding::SubOne,
+                        _ => Rounding::NoOp,
+                    },
+                ),
             }
         }
-        /*@ proof {
-            let xn = sc_num(absi(sig), ex);
-            let xd = sc_den(ex);
-            if -1074 - 53 <= ex < 1024 && !ap_exact(ret) && rne_ok(fmt64(), neg, xn, xd, fields64(ap_val(ret)), false, !neg) {
-                assert(rne_ok_away(fmt64(), neg, xn, xd, fields64(ap_val(ret))));     // witness of the excluded region
-            }
-        } @*/
     }
